@@ -88,6 +88,7 @@ pub fn check(c: &Case, acc: &mut Acc) -> Check {
         headers: c.headers.clone(),
         plan: if c.plan.is_empty() { vec![PStep::Rest] } else { c.plan.clone() },
         faults: vec![],
+        tail: vec![],
     };
     let req = ReqSpec::get().with("range", &c.range.0);
     let hdr_bytes: usize = c.headers.iter().map(|(k, v)| k.len() + v.0.len() + 4).sum();
